@@ -186,10 +186,16 @@ WmChecks ==
           \* C03 at word level: an unfinished query word that is a prefix of the record word matches it, whatever the stems
           (IF ~qt.words[qi].fin /\ IsPrefixOf(qw, rw) /\ Len(qw) >= 1
              THEN Check(E.m # <<>>, l, "C03", "word_match rejects a typed prefix of the record word") ELSE <<>>)
+          \* C16 at the call site: the typos reported for the matched prefix pair are the distance of those two prefixes
+          \* computed on their own (fresh instance; t10 is typos x 10, fresh_x2 is distance x 2)
+          \o (IF E.m # <<>> /\ Has(E, "fresh_x2") /\ E.fresh_x2 >= 0 /\ E.m[1].r.t10 >= 0
+                THEN Check(E.m[1].r.t10 = 5 * E.fresh_x2 /\ E.m[1].q.t10 = 5 * E.fresh_x2, l, "C16",
+                           "typos reported by word_match differ from the distance of the matched prefixes on their own")
+                ELSE <<>>)
           \o AccFindings(E, l),
           Check((E.m = <<>>) <=> (m = <<>>), l, "L2", "word_match verdict differs from WordMatch.tla")
           \o (IF E.m # <<>> /\ m # <<>> THEN Check(SameM(E.m[1].r, m[1].r) /\ SameM(E.m[1].q, m[1].q), l, "L2", "word match differs from WordMatch.tla") ELSE <<>>),
-          <<"C03", "C19", "C01">>)
+          <<"C03", "C19", "C01", "C16">>)
 TvWm == /\ E.op = "wm" /\ ~Has(E, "unsupported") /\ Apply(WmChecks) /\ UNCHANGED <<sizes, memoD, memoJ, memoS, memoG>>
 
 TvDl  == /\ E.op = "dl" /\ ~Has(E, "unsupported")
